@@ -4,10 +4,29 @@
   The theorems hold for EVERY reduction `red`, every node data function, every face-node table
   and every partition data meeting `PartsOK` (which the driver evaluates on the partitions the
   real `get_face_node_partitions` returns).
+
+  Round E: the ten reductions of `NUMPY_AGGREGATIONS` are no longer only parameters.  They are
+  explicit exact functions over ℚ (`Aggregate.core`; `std` through its square), every finite
+  float64/int/bool being a rational, and the float clause of the spec (`Aggregate.accepts`: the
+  implementation's output is within a rounding allowance of the exact reduction of exactly the
+  element's corner values) is DECIDED BY THE LEAN DRIVER on every output.
+  * `red_perm_invariant`, `accepts_perm_invariant` — value and verdict depend only on the multiset
+    of the row (start corner / orientation of a face row, orientation of an edge are irrelevant:
+    `agg_corner_order_irrelevant`, `agg_edge_orientation_irrelevant`);
+  * `red_min_max_sort_spec` — min/max are the least/greatest member, the sorted row (median) is
+    the ascending rearrangement;
+  * `judge_accepts_exact`, `judge_exact_ops`, `judgeRows_iff` — the judge never rejects the exact
+    value, is exact equality for min/max/all/any, and means one accepted finite value per row;
+  * `loop_rows_are_corner_rows`, `agg_face_factor`, `agg_face_local` — the rows the partition loop
+    gathers are exactly the corner values; no other node contributes;
+  * `agg_edge_real_endpoints` — C02 ∘ C17 for the edge destination;
+  * `agg_subgrid_commutes(_std)` — aggregation commutes with taking a face sub-grid.
 -/
 import UxVerif.Lemmas.Keyed
 import UxVerif.Lemmas.Rows
 import UxVerif.Lemmas.Parts
+import UxVerif.Lemmas.C17Reduce
+import UxVerif.Props.C02
 import UxVerif.Model.Aggregate
 
 namespace UxVerif.C17
@@ -156,6 +175,225 @@ theorem agg_face_real_corners {n w : Nat} {t : Table} (h : Edges.StdForm n w t)
     rw [hrow] at this
     simp only [List.getElem_map, List.getElem_range, hNf, hrow, this]
 
+
+/-! ## the ten reductions themselves (exact, over ℚ) and the Lean-decided float clause -/
+
+/-- **corner order / start corner is irrelevant to every one of the ten reductions**: the exact
+    value depends only on the multiset of the gathered row. -/
+theorem red_perm_invariant (op : Red) (ddof : Nat) {l₁ l₂ : List Rat} (h : l₁.Perm l₂) :
+    core op ddof l₁ = core op ddof l₂ := core_perm op ddof h
+
+/-- … and so does the verdict of the float clause (value AND rounding allowance). -/
+theorem accepts_perm_invariant (op : Red) (ddof : Nat) {l₁ l₂ : List Rat} (h : l₁.Perm l₂)
+    (y : Rat) : accepts op ddof l₁ y = accepts op ddof l₂ y := accepts_perm op ddof h y
+
+/-- the model's `min` / `max` are the least / greatest MEMBER of the row (never a value from
+    elsewhere), its sorted row is the ascending rearrangement of the row. -/
+theorem red_min_max_sort_spec (l : List Rat) :
+    (∀ m, core .min 0 l = some m ↔ m ∈ l ∧ ∀ x ∈ l, m ≤ x) ∧
+    (∀ m, core .max 0 l = some m ↔ m ∈ l ∧ ∀ x ∈ l, x ≤ m) ∧
+    (sortQ l).Perm l ∧ (sortQ l).Pairwise (· ≤ ·) :=
+  ⟨qmin_spec l, qmax_spec l, sortQ_perm_self l, sortQ_sorted l⟩
+
+/-- **the judge never rejects the exact value** (the allowance is non-negative): a rejection is
+    a deviation beyond float64 rounding. -/
+theorem judge_accepts_exact (op : Red) (ddof : Nat) (row : List Rat) (y : Rat)
+    (h : IsValue op ddof row y) : accepts op ddof row y = true :=
+  accepts_of_isValue op ddof row y h
+
+/-- **for min, max, all, any the judge accepts exactly the true value** (no allowance). -/
+theorem judge_exact_ops (op : Red) (ddof : Nat) (row : List Rat) (y : Rat)
+    (hop : op = .min ∨ op = .max ∨ op = .all ∨ op = .any) :
+    accepts op ddof row y = true ↔ IsValue op ddof row y :=
+  accepts_exact_iff op ddof row y hop
+
+/-- what the driver's verdict on a result vector means: one accepted finite output per
+    prescribed row. -/
+theorem judgeRows_iff (op : Red) (ddof : Nat) (rows : List (List Rat)) (out : List (Option Rat)) :
+    judgeRows op ddof rows out = true ↔
+      rows.length = out.length ∧
+      ∀ i (h₁ : i < rows.length) (h₂ : i < out.length),
+        ∃ y, out[i] = some y ∧ accepts op ddof rows[i] y = true := by
+  unfold judgeRows
+  simp only [Bool.and_eq_true, decide_eq_true_eq, List.all_eq_true]
+  constructor
+  · rintro ⟨hl, hall⟩
+    refine ⟨hl, fun i h₁ h₂ => ?_⟩
+    have hm : (rows[i], out[i]) ∈ rows.zip out := by
+      rw [List.mem_iff_getElem]
+      exact ⟨i, by simp [h₁, h₂], by simp⟩
+    have := hall _ hm
+    cases ho : out[i] with
+    | none => simp [ho] at this
+    | some y => exact ⟨y, rfl, by simpa [ho] using this⟩
+  · rintro ⟨hl, hall⟩
+    refine ⟨hl, fun ry hm => ?_⟩
+    obtain ⟨i, hi, rfl⟩ := List.mem_iff_getElem.mp hm
+    have h₁ : i < rows.length := by simp at hi; omega
+    have h₂ : i < out.length := by simp at hi; omega
+    obtain ⟨y, hy, hacc⟩ := hall i h₁ h₂
+    simp [hy, hacc]
+
+/-- **the rows the partition loop gathers are exactly the values on each face's real corners**
+    (the C02 ∘ C17 statement with `red = id`): the rows the driver judges the implementation
+    against are the rows the property prescribes. -/
+theorem loop_rows_are_corner_rows {n w : Nat} {t : Table} (h : Edges.StdForm n w t)
+    (data : Int → Rat) (perm : List Nat) (hp : SortsBy (Edges.nNodesPerFace t) perm) :
+    loopRows data t (partsOf (Edges.nNodesPerFace t) perm) = (cornerRows data t).map some := by
+  unfold loopRows cornerRows
+  rw [agg_face_real_corners h (fun row => row) data perm hp]
+  simp
+
+/-- the aggregation with ANY reduction is that reduction applied to the gathered rows -/
+theorem agg_face_factor (red : List α → β) (data : Int → α) (t : Table) (N : List Nat) (p : Parts)
+    (h : PartsOK t.length N p) :
+    aggFace red data t p = (aggFace (fun row => row) data t p).map (Option.map red) := by
+  rw [agg_face_eq red data t N p h, agg_face_eq (fun row => row) data t N p h]
+  simp [faceRef]
+
+/-- **locality**: the aggregated value of face `f` depends on the data only through the values
+    on the real corners of `f` — no other node contributes. -/
+theorem agg_face_local {n w : Nat} {t : Table} (h : Edges.StdForm n w t)
+    (red : List α → β) (data data' : Int → α) (perm : List Nat)
+    (hp : SortsBy (Edges.nNodesPerFace t) perm) (f : Nat) (hf : f < t.length)
+    (hag : ∀ x ∈ faceOf t[f], data x = data' x) :
+    (aggFace red data t (partsOf (Edges.nNodesPerFace t) perm))[f]? =
+      (aggFace red data' t (partsOf (Edges.nNodesPerFace t) perm))[f]? := by
+  rw [agg_face_real_corners h red data perm hp, agg_face_real_corners h red data' perm hp]
+  simp only [List.getElem?_map, List.getElem?_eq_getElem hf, Option.map_some]
+  congr 3
+  exact List.map_congr_left hag
+
+theorem map_corner_perm (op : Red) (ddof : Nat) (data : Int → Rat) {t t' : Table}
+    (hperm : List.Forall₂ (fun r r' => (faceOf r).Perm (faceOf r')) t t') :
+    t.map (fun r => some (core op ddof ((faceOf r).map data)))
+      = t'.map (fun r => some (core op ddof ((faceOf r).map data))) := by
+  induction hperm with
+  | nil => rfl
+  | cons hr _ ih =>
+    simp only [List.map_cons]
+    rw [ih, core_perm op ddof (hr.map data)]
+
+/-- **start corner and orientation of each face row are irrelevant**: two standard-form tables
+    whose rows list the same corners in any order give the same aggregation, for each of the ten
+    reductions and any argsort tie-breaking on either side. -/
+theorem agg_corner_order_irrelevant {n w n' w' : Nat} {t t' : Table}
+    (h : Edges.StdForm n w t) (h' : Edges.StdForm n' w' t')
+    (hperm : List.Forall₂ (fun r r' => (faceOf r).Perm (faceOf r')) t t')
+    (op : Red) (ddof : Nat) (data : Int → Rat) (perm perm' : List Nat)
+    (hp : SortsBy (Edges.nNodesPerFace t) perm) (hp' : SortsBy (Edges.nNodesPerFace t') perm') :
+    aggFace (core op ddof) data t (partsOf (Edges.nNodesPerFace t) perm)
+      = aggFace (core op ddof) data t' (partsOf (Edges.nNodesPerFace t') perm') := by
+  rw [agg_face_real_corners h _ data perm hp, agg_face_real_corners h' _ data perm' hp']
+  exact map_corner_perm op ddof data hperm
+
+/-- **node → edge: the orientation of an edge is irrelevant** to each of the ten reductions, and
+    the gathered edge rows are exactly the two end values. -/
+theorem agg_edge_orientation_irrelevant (op : Red) (ddof : Nat) (data : Int → Rat)
+    (E : List (Int × Int)) :
+    edgeRows data E = E.map (fun e => [data e.1, data e.2]) ∧
+    aggEdge (core op ddof) data E = aggEdge (core op ddof) data (E.map Prod.swap) := by
+  refine ⟨by simp [edgeRows, aggEdge], ?_⟩
+  simp only [aggEdge, List.map_map]
+  apply List.map_congr_left
+  intro e _
+  exact core_perm op ddof (List.Perm.swap _ _ _)
+
+/-- **C02 ∘ C17 for edges**: on the edge table the C02 model derives from ANY standard-form face
+    table, each aggregated edge value is the reduction over exactly its two end values, and the two
+    ends are real nodes (never padding) that are consecutive corners of some face. -/
+theorem agg_edge_real_endpoints {n w : Nat} {t : Table} (h : Edges.StdForm n w t)
+    (red : List α → β) (data : Int → α) (i : Nat) (hi : i < (Edges.edges t).length) :
+    (aggEdge red data (Edges.edges t))[i]?
+        = some (red [data (Edges.edges t)[i].1, data (Edges.edges t)[i].2]) ∧
+      (Edges.edges t)[i].1 ≠ FILL ∧ (Edges.edges t)[i].2 ≠ FILL ∧
+      ∃ r ∈ t, sortPair (Edges.edges t)[i] ∈ Edges.rowSegs r := by
+  refine ⟨agg_edge_eq red data _ i hi, ?_⟩
+  exact UxVerif.C02.edges_sound h _ (List.getElem_mem hi)
+
+theorem faceOf_map (ren : Int → Int) (r : List Int) (hren : ∀ x ∈ r, (ren x = FILL ↔ x = FILL)) :
+    faceOf (r.map ren) = (faceOf r).map ren := by
+  induction r with
+  | nil => rfl
+  | cons a r ih =>
+    have ha := hren a (by simp)
+    have ih := ih (fun x hx => hren x (List.mem_cons_of_mem _ hx))
+    unfold faceOf at *
+    simp only [List.map_cons, List.takeWhile_cons]
+    by_cases h : a = FILL
+    · subst h; simp [ha.mpr rfl]
+    · have : ren a ≠ FILL := fun e => h (ha.mp e)
+      simp [h, this, ih]
+
+/-- a face selection with an injective-on-padding renumbering into `[0, n')` of a standard-form
+    table is in standard form (same width) -/
+theorem subTable_stdForm {n w n' : Nat} {t : Table} (h : Edges.StdForm n w t)
+    (idx : List Nat) (hidx : ∀ f ∈ idx, f < t.length)
+    (ren : Int → Int) (hren : ∀ x, ren x = FILL ↔ x = FILL)
+    (hrng : ∀ f ∈ idx, ∀ x ∈ faceOf (rowAt t f), 0 ≤ ren x ∧ ren x < n') :
+    Edges.StdForm n' w (subTable t idx ren) := by
+  intro r' hr'
+  obtain ⟨f, hf, rfl⟩ := List.mem_map.mp hr'
+  have hft := hidx f hf
+  have hrow : rowAt t f = t[f] := by simp [rowAt, List.getD, List.getElem?_eq_getElem hft]
+  obtain ⟨hlen, hpos, _, hfill⟩ := h _ (hrow ▸ List.getElem_mem hft)
+  have hfo := faceOf_map ren (rowAt t f) (fun x _ => hren x)
+  refine ⟨by simpa using hlen, by rw [hfo]; simpa using hpos, ?_, ?_⟩
+  · intro x hx
+    rw [hfo] at hx
+    obtain ⟨y, hy, rfl⟩ := List.mem_map.mp hx
+    exact hrng f hf y hy
+  · intro x hx
+    rw [hfo, List.length_map, ← List.map_drop] at hx
+    obtain ⟨y, hy, rfl⟩ := List.mem_map.mp hx
+    rw [hfill y hy]
+    exact (hren FILL).mpr rfl
+
+/-- **aggregation commutes with taking a sub-grid**: on the sub-grid whose rows are the selected
+    parent rows with renumbered nodes, carrying the parent's node values along the renumbering,
+    the aggregation is the selection of the parent's aggregation — for every reduction and any
+    argsort tie-breaking on either grid. -/
+theorem agg_subgrid_commutes {n w n' w' : Nat} {t : Table} (h : Edges.StdForm n w t)
+    (idx : List Nat) (hidx : ∀ f ∈ idx, f < t.length)
+    (ren : Int → Int) (hren : ∀ x, ren x = FILL ↔ x = FILL)
+    (h' : Edges.StdForm n' w' (subTable t idx ren))
+    (red : List α → β) (data data' : Int → α)
+    (hdata : ∀ f ∈ idx, ∀ x ∈ faceOf (rowAt t f), data' (ren x) = data x)
+    (perm perm' : List Nat) (hp : SortsBy (Edges.nNodesPerFace t) perm)
+    (hp' : SortsBy (Edges.nNodesPerFace (subTable t idx ren)) perm') :
+    aggFace red data' (subTable t idx ren) (partsOf (Edges.nNodesPerFace (subTable t idx ren)) perm')
+      = idx.map (fun f => (aggFace red data t (partsOf (Edges.nNodesPerFace t) perm)).getD f none) := by
+  rw [agg_face_real_corners h' red data' perm' hp', agg_face_real_corners h red data perm hp]
+  unfold subTable
+  rw [List.map_map]
+  apply List.map_congr_left
+  intro f hf
+  have hft := hidx f hf
+  have hrow : rowAt t f = t[f] := by simp [rowAt, List.getD, List.getElem?_eq_getElem hft]
+  simp only [Function.comp, List.getD_eq_getElem?_getD, List.getElem?_map,
+    List.getElem?_eq_getElem hft, Option.map_some, Option.getD_some]
+  have hd := hdata f hf
+  rw [hrow] at hd ⊢
+  rw [faceOf_map ren _ (fun x _ => hren x), List.map_map]
+  congr 2
+  apply List.map_congr_left
+  intro x hx
+  exact hd x hx
+
+/-- the same with the standard form of the sub-grid table DERIVED (renumbering into `[0, n')`) -/
+theorem agg_subgrid_commutes_std {n w n' : Nat} {t : Table} (h : Edges.StdForm n w t)
+    (idx : List Nat) (hidx : ∀ f ∈ idx, f < t.length)
+    (ren : Int → Int) (hren : ∀ x, ren x = FILL ↔ x = FILL)
+    (hrng : ∀ f ∈ idx, ∀ x ∈ faceOf (rowAt t f), 0 ≤ ren x ∧ ren x < n')
+    (red : List α → β) (data data' : Int → α)
+    (hdata : ∀ f ∈ idx, ∀ x ∈ faceOf (rowAt t f), data' (ren x) = data x)
+    (perm perm' : List Nat) (hp : SortsBy (Edges.nNodesPerFace t) perm)
+    (hp' : SortsBy (Edges.nNodesPerFace (subTable t idx ren)) perm') :
+    aggFace red data' (subTable t idx ren) (partsOf (Edges.nNodesPerFace (subTable t idx ren)) perm')
+      = idx.map (fun f => (aggFace red data t (partsOf (Edges.nNodesPerFace t) perm)).getD f none) :=
+  agg_subgrid_commutes h idx hidx ren hren (subTable_stdForm h idx hidx ren hren hrng)
+    red data data' hdata perm perm' hp hp'
+
 /-! ### non-vacuity -/
 example : SortsBy [4, 3, 4, 3, 5] [3, 1, 0, 2, 4] := by decide
 /-- a triangle and a quad in "wrong" order, partitions as numpy returns them -/
@@ -167,5 +405,41 @@ example : aggFace (fun l => l.foldl (· + ·) 0) (fun i => i) [[0, 1, 2, 3], [2,
 /-- a partition that mixes sizes is rejected by the hypothesis -/
 example : ¬ PartsOK 3 [4, 3, 4] { change := [0, 2, 3], perm := [1, 0, 2], sizes := [3, 4] } := by
   decide
+
+/-- the ten reductions on the corner values 1, 4, 2, 2 of a quad (std: its square) -/
+example : [Red.mean, .max, .min, .prod, .sum, .std, .var, .median, .all, .any].map
+      (fun op => core op 0 [1, 4, 2, 2])
+    = [some (9/4), some 4, some 1, some 16, some 9, some (19/16), some (19/16), some 2, some 1, some 1] := by
+  decide +kernel
+/-- even/odd medians, ddof = 1, a zero among non-bool data, empty rows -/
+example : core .median 0 [5, 1, 3] = some 3 ∧ core .median 0 [5, 1, 3, 2] = some (5/2) ∧
+    core .var 1 [1, 4, 2, 2] = some (19/12) ∧ core .all 0 [3, 0, 2] = some 0 ∧
+    core .any 0 [0, 0, 2] = some 1 ∧ core .mean 0 [] = none ∧ core .var 1 [7] = none := by
+  decide +kernel
+/-- rotating / reversing the row changes nothing, dropping a corner or reading a padding slot does -/
+example : core .mean 0 [1, 4, 2, 2] = core .mean 0 [2, 2, 4, 1] ∧
+    core .mean 0 [1, 4, 2, 2] ≠ core .mean 0 [1, 4, 2] ∧
+    core .median 0 [1, 4, 3, 2] ≠ core .median 0 [1, 4, 3, 2, 0] := by decide +kernel
+/-- the judge: an exact value and a last-bit deviation pass, a wrong divisor (ddof) or a missing
+    corner fails; for min no deviation passes -/
+example : accepts .mean 0 [1, 4, 2, 2] (9/4) = true ∧
+    accepts .mean 0 [1, 4, 2, 2] (9/4 + eps) = true ∧
+    accepts .mean 0 [1, 4, 2, 2] (7/3) = false ∧
+    accepts .var 0 [1, 4, 2, 2] (19/12) = false ∧
+    accepts .std 1 [1, 3] 2 = false ∧ accepts .std 0 [1, 3] 1 = true ∧
+    accepts .min 0 [1, 4, 2, 2] (1 + eps) = false := by decide +kernel
+example : judgeRows .sum 0 [[1, 2, 3], [4, 5]] [some 6, some 9] = true ∧
+    judgeRows .sum 0 [[1, 2, 3], [4, 5]] [some 6, none] = false ∧
+    judgeRows .sum 0 [[1, 2, 3], [4, 5]] [some 6] = false := by decide +kernel
+/-- a mixed table: the loop's rows are the corner rows; the same faces started at another corner -/
+example : loopRows (fun i => (i : Rat) / 2) [[0, 1, 2, 3], [2, 1, 4, FILL]]
+      (partsOf [4, 3] [1, 0]) = [some [0, 1/2, 1, 3/2], some [1, 1/2, 2]] := by decide +kernel
+example : List.Forall₂ (fun r r' => (faceOf r).Perm (faceOf r'))
+    [[0, 1, 2, 3], [2, 1, 4, FILL]] [[2, 3, 0, 1], [4, 2, 1, FILL]] := by
+  refine .cons ?_ (.cons ?_ .nil) <;> decide
+/-- a sub-grid: face 1 of the parent, nodes renumbered 1↦0, 2↦1, 4↦2 -/
+example : subTable [[0, 1, 2, 3], [2, 1, 4, FILL]] [1]
+      (fun x => if x = 1 then 0 else if x = 2 then 1 else if x = 4 then 2 else x)
+    = [[1, 0, 2, FILL]] := by decide
 
 end UxVerif.C17
